@@ -33,7 +33,7 @@ import (
 	"strings"
 )
 
-var kzgOpenFuncs = []string{"eval", "dividePolyByXminusA", "Commit", "Open"}
+var kzgOpenFuncs = []string{"eval", "dividePolyByXminusA", "Commit", "Open", "BatchOpenSinglePoint"}
 
 const kzParams = " {F G : Type} (zero : F) (add sub mul : F → F → F) (gzero : G) (multiExp : G → List G → List F → MultiExpConfig → G × Err)"
 const kzArgs = " zero add sub mul gzero multiExp"
@@ -96,16 +96,19 @@ type kzPkg struct {
 }
 
 type kzFn struct {
-	p       *kzPkg
-	name    string
-	sig     *kzSig
-	vars    map[string]*kzTy
-	order   []string
-	isParam map[string]int
-	owned   map[string]bool
-	frozen  map[string]bool
-	helpers []string
-	nloop   int
+	p        *kzPkg
+	name     string
+	sig      *kzSig
+	vars     map[string]*kzTy
+	order    []string
+	isParam  map[string]int
+	owned    map[string]bool
+	frozen   map[string]bool
+	helpers  []string
+	nloop    int
+	needWait bool   // the loop just translated started goroutines (goLoopLines)
+	extra    string // extra parameters of the function itself (abstract package-local functions it calls)
+	inLoop   int
 }
 
 func (p *kzPkg) die(n ast.Node, f string, a ...any) {
@@ -126,6 +129,8 @@ func (p *kzPkg) goType(e ast.Expr) *kzTy {
 			return &kzTy{k: "bool"}
 		case "error":
 			return &kzTy{k: "err"}
+		case "byte":
+			return &kzTy{k: "byte"}
 		}
 		if a, ok := p.alias[v.Name]; ok {
 			return p.goType(a)
@@ -153,6 +158,10 @@ func (p *kzPkg) goType(e ast.Expr) *kzTy {
 			return &kzTy{k: "elem"}
 		case "ecc.MultiExpConfig":
 			return &kzTy{k: "cfg"}
+		case "hash.Hash":
+			return &kzTy{k: "hash"}
+		case "sync.WaitGroup":
+			return &kzTy{k: "waitgroup"}
 		}
 		if id, ok := v.X.(*ast.Ident); ok && id.Name == strings.ReplaceAll(p.curve, "-", "") && v.Sel.Name == "G1Affine" {
 			return &kzTy{k: "point"}
@@ -180,6 +189,10 @@ func (p *kzPkg) lty(t *kzTy) string {
 		return "G"
 	case "err":
 		return "Err"
+	case "hash":
+		return "Hash"
+	case "byte":
+		return "UInt8"
 	case "cfg":
 		return "MultiExpConfig"
 	case "slice":
@@ -386,6 +399,13 @@ func (f *kzFn) expr(e ast.Expr, want *kzTy) (string, *kzTy) {
 			out = "List.drop (Int.toNat " + kzParen(ls) + ") " + kzParen(out)
 		}
 		return out, xt
+	case *ast.UnaryExpr:
+		if v.Op == token.SUB {
+			xs, xt := f.expr(v.X, nil)
+			if xt.k == "int" {
+				return "-" + kzParen(xs), xt
+			}
+		}
 	case *ast.BinaryExpr:
 		switch v.Op {
 		case token.LOR, token.LAND:
@@ -572,6 +592,26 @@ func (f *kzFn) place(e ast.Expr) (string, *kzTy, func(string) string) {
 			return "let " + n + " := " + val
 		}
 	case *ast.IndexExpr:
+		if se, ok := v.X.(*ast.SelectorExpr); ok {
+			// x.f[i] for a local struct x whose slice field f was created by make in this function
+			id, ok := se.X.(*ast.Ident)
+			if !ok {
+				p.die(e, "element of a field of something that is not a variable")
+			}
+			if _, isP := f.isParam[id.Name]; isP {
+				p.die(e, "element write through a field of the parameter %s", id.Name)
+			}
+			xs, xt := f.expr(se, nil)
+			is, it := f.expr(v.Index, nil)
+			if xt.k != "slice" || it.k != "int" {
+				p.die(e, "element place types")
+			}
+			n := kzName(id.Name)
+			return "idxD " + p.zero(xt.elem) + " " + kzParen(xs) + " " + kzParen(is), xt.elem, func(val string) string {
+				f.noteWrite(e, exprText(se))
+				return "let " + n + " := { " + n + " with " + se.Sel.Name + " := setAt " + xs + " " + kzParen(is) + " " + kzParen(val) + " }"
+			}
+		}
 		id, ok := v.X.(*ast.Ident)
 		if !ok {
 			p.die(e, "element of something that is not a variable")
@@ -643,7 +683,7 @@ func (f *kzFn) methodStmt(call *ast.CallExpr) []string {
 		if !ok || u.Op != token.AND {
 			p.die(a, "method operand must be &place")
 		}
-		as, at, _ := f.place(u)
+		as, at := f.expr(u.X, nil)
 		if !at.eq(rt) {
 			p.die(a, "operand type")
 		}
@@ -704,6 +744,9 @@ func (f *kzFn) simple(s ast.Stmt, prev ast.Stmt) []string {
 			}
 			for _, n := range vs.Names {
 				f.declare(s, n.Name, t)
+				if t.k == "waitgroup" { // synchronisation only (see goLoopLines)
+					continue
+				}
 				out = append(out, "let "+kzName(n.Name)+" : "+p.lty(t)+" := "+p.zero(t))
 			}
 		}
@@ -712,6 +755,14 @@ func (f *kzFn) simple(s ast.Stmt, prev ast.Stmt) []string {
 		call, ok := v.X.(*ast.CallExpr)
 		if !ok {
 			p.die(s, "expression statement")
+		}
+		if se, ok := call.Fun.(*ast.SelectorExpr); ok {
+			if id, ok := se.X.(*ast.Ident); ok && f.vars[id.Name] != nil && f.vars[id.Name].k == "waitgroup" {
+				if se.Sel.Name == "Add" || se.Sel.Name == "Wait" {
+					return nil // synchronisation only: goLoopLines checks that Wait directly follows the loop that starts the goroutines
+				}
+				p.die(s, "WaitGroup.%s here", se.Sel.Name)
+			}
 		}
 		if exprText(call.Fun) == "copy" && len(call.Args) == 2 {
 			dst, ok := call.Args[0].(*ast.Ident)
@@ -734,6 +785,9 @@ func (f *kzFn) simple(s ast.Stmt, prev ast.Stmt) []string {
 		return f.methodStmt(call)
 	case *ast.AssignStmt:
 		if v.Tok == token.ASSIGN && len(v.Lhs) == 1 && len(v.Rhs) == 1 {
+			if lines := f.sliceAssign(v); lines != nil {
+				return lines
+			}
 			_, lt, wb := f.place(v.Lhs[0])
 			es, et := f.expr(v.Rhs[0], lt)
 			if !et.eq(lt) || lt.k == "slice" {
@@ -741,8 +795,14 @@ func (f *kzFn) simple(s ast.Stmt, prev ast.Stmt) []string {
 			}
 			return []string{wb(es)}
 		}
+		if v.Tok == token.ASSIGN && len(v.Lhs) == 2 && len(v.Rhs) == 1 {
+			return f.tupleAssign(v)
+		}
 		if v.Tok != token.DEFINE || len(v.Rhs) != 1 {
 			p.die(s, "assignment form")
+		}
+		if lines, ok := f.defineSpecial(v); ok {
+			return lines
 		}
 		var ids []string
 		for _, l := range v.Lhs {
@@ -899,7 +959,7 @@ func (f *kzFn) assignedIn(list []ast.Stmt) []string {
 	}
 	var out []string
 	for _, n := range f.order {
-		if _, live := f.vars[n]; live && set[n] {
+		if t, live := f.vars[n]; live && set[n] && t.k != "waitgroup" && t.k != "chan" {
 			dup := false
 			for _, o := range out {
 				dup = dup || o == n
@@ -942,35 +1002,13 @@ func (f *kzFn) seq(list []ast.Stmt, ind string, prev ast.Stmt) string {
 	s, rest := list[0], list[1:]
 	switch v := s.(type) {
 	case *ast.ReturnStmt:
-		if len(v.Results) != len(f.sig.results) {
-			p.die(s, "return arity")
-		}
-		var vals []string
-		for _, w := range f.sig.writes {
-			vals = append(vals, kzName(f.sig.pnames[w]))
-		}
-		for i, r := range v.Results {
-			rs, rt := f.expr(r, f.sig.results[i])
-			if !rt.eq(f.sig.results[i]) {
-				p.die(r, "result %d type", i)
-			}
-			if rt.k == "slice" {
-				root := rootOf(r)
-				if pi, ok := f.isParam[root]; ok {
-					if old, had := f.sig.alias[i]; had && old != pi {
-						p.die(r, "result aliases different parameters on different paths")
-					}
-					f.sig.alias[i] = pi
-				} else if !f.owned[root] || f.frozen[root] {
-					p.die(r, "returned slice %s is neither cut from a parameter nor a fresh local", root)
-				}
-			}
-			vals = append(vals, rs)
-		}
-		return ind + kzTuple(vals) + "\n"
+		return ind + f.retVals(v) + "\n"
 	case *ast.IfStmt:
 		if v.Else != nil {
 			p.die(s, "else branch")
+		}
+		if !kzHasReturn(v.Body.List) {
+			return kzEmit(f.stmtLines(s, prev), ind) + f.seq(rest, ind, s)
 		}
 		mark := len(f.order)
 		head := ""
@@ -982,30 +1020,6 @@ func (f *kzFn) seq(list []ast.Stmt, ind string, prev ast.Stmt) string {
 		cs, ct := f.expr(v.Cond, nil)
 		if ct.k != "prop" {
 			p.die(s, "condition type")
-		}
-		if !kzHasReturn(v.Body.List) {
-			// state update: the variables assigned in the body
-			S := f.assignedIn(v.Body.List)
-			if len(S) == 0 {
-				p.die(s, "if without effect")
-			}
-			var ns []string
-			for _, x := range S {
-				ns = append(ns, kzName(x))
-			}
-			m2 := len(f.order)
-			body := ""
-			var prevS ast.Stmt
-			for _, bs := range v.Body.List {
-				for _, l := range f.simple(bs, prevS) {
-					body += ind + "    " + l + "\n"
-				}
-				prevS = bs
-			}
-			f.dropScope(f.declaredSince(m2))
-			out := head + ind + "let " + kzTuple(ns) + " :=\n" + ind + "  if " + cs + " then\n" + body + ind + "    " + kzTuple(ns) + "\n" + ind + "  else\n" + ind + "    " + kzTuple(ns) + "\n"
-			f.dropScope(f.declaredSince(mark))
-			return out + f.seq(rest, ind, s)
 		}
 		// the body returns on some path: `if c then body;rest else rest` (rest duplicated when the body can fall through)
 		saveVars, saveOrder := copyVars(f.vars), append([]string{}, f.order...)
@@ -1020,15 +1034,23 @@ func (f *kzFn) seq(list []ast.Stmt, ind string, prev ast.Stmt) string {
 		elseTxt := f.seq(rest, ind, s)
 		return head + ind + "if " + cs + " then\n" + thenTxt + ind + "else\n" + elseTxt
 	case *ast.ForStmt:
-		return f.forStmt(v, rest, ind)
-	case *ast.BlockStmt, *ast.RangeStmt, *ast.SwitchStmt, *ast.GoStmt, *ast.DeferStmt, *ast.BranchStmt, *ast.SelectStmt, *ast.SendStmt, *ast.LabeledStmt, *ast.TypeSwitchStmt:
+		out := kzEmit(f.stmtLines(s, prev), ind)
+		if f.needWait {
+			// the loop started goroutines: the next statement must wait for all of them
+			f.needWait = false
+			if len(rest) == 0 || !f.isWgCall(rest[0], "Wait") {
+				p.die(s, "a loop that starts goroutines must be followed directly by wg.Wait()")
+			}
+		}
+		return out + f.seq(rest, ind, s)
+	case *ast.RangeStmt:
+		return f.rangeStmt(v, rest, ind)
+	case *ast.GoStmt:
+		return f.goChan(v, rest, ind)
+	case *ast.BlockStmt, *ast.SwitchStmt, *ast.DeferStmt, *ast.BranchStmt, *ast.SelectStmt, *ast.SendStmt, *ast.LabeledStmt, *ast.TypeSwitchStmt:
 		p.die(s, "statement outside the subset (%T)", s)
 	}
-	out := ""
-	for _, l := range f.simple(s, prev) {
-		out += ind + l + "\n"
-	}
-	return out + f.seq(rest, ind, s)
+	return kzEmit(f.stmtLines(s, prev), ind) + f.seq(rest, ind, s)
 }
 
 func copyVars(m map[string]*kzTy) map[string]*kzTy {
@@ -1037,91 +1059,6 @@ func copyVars(m map[string]*kzTy) map[string]*kzTy {
 		c[k] = v
 	}
 	return c
-}
-
-// `for i := e; i >= 0; i-- { simple statements }`
-func (f *kzFn) forStmt(v *ast.ForStmt, rest []ast.Stmt, ind string) string {
-	p := f.p
-	init, ok := v.Init.(*ast.AssignStmt)
-	if !ok || init.Tok != token.DEFINE || len(init.Lhs) != 1 || len(init.Rhs) != 1 {
-		p.die(v, "loop init form")
-	}
-	iv := exprText(init.Lhs[0])
-	cond, ok := v.Cond.(*ast.BinaryExpr)
-	if !ok || cond.Op != token.GEQ || exprText(cond.X) != iv || exprText(cond.Y) != "0" {
-		p.die(v, "loop condition form (only `%s >= 0`)", iv)
-	}
-	post, ok := v.Post.(*ast.IncDecStmt)
-	if !ok || post.Tok != token.DEC || exprText(post.X) != iv {
-		p.die(v, "loop post statement form (only `%s--`)", iv)
-	}
-	mark := len(f.order)
-	es, et := f.expr(init.Rhs[0], nil)
-	if et.k != "int" {
-		p.die(v, "loop variable type")
-	}
-	f.declare(v, iv, et)
-	S := f.assignedIn(v.Body.List)
-	for _, x := range S {
-		if x == iv {
-			p.die(v, "loop variable assigned in the body")
-		}
-	}
-	if len(S) == 0 {
-		p.die(v, "loop without effect")
-	}
-	S = append(S, iv)
-	inS := map[string]bool{}
-	for _, x := range S {
-		inS[x] = true
-	}
-	free := f.freeIn(v.Body)
-	var ro []string
-	for _, n := range f.order {
-		if _, live := f.vars[n]; live && free[n] && !inS[n] {
-			ro = append(ro, n)
-		}
-	}
-	f.nloop++
-	name := fmt.Sprintf("%s.loop%d", f.name, f.nloop)
-	m2 := len(f.order)
-	body := ""
-	var prevS ast.Stmt
-	for _, bs := range v.Body.List {
-		switch bs.(type) {
-		case *ast.ExprStmt, *ast.AssignStmt, *ast.DeclStmt:
-		default:
-			p.die(bs, "loop body statement outside the subset (%T)", bs)
-		}
-		for _, l := range f.simple(bs, prevS) {
-			body += "      " + l + "\n"
-		}
-		prevS = bs
-	}
-	f.dropScope(f.declaredSince(m2))
-	var sN, sT, roP, roA []string
-	for _, x := range S {
-		sN = append(sN, kzName(x))
-		sT = append(sT, p.ltyA(f.vars[x]))
-	}
-	for _, x := range ro {
-		roP = append(roP, "("+kzName(x)+" : "+p.lty(f.vars[x])+")")
-		roA = append(roA, kzName(x))
-	}
-	roPs, roAs := "", ""
-	if len(ro) > 0 {
-		roPs, roAs = " "+strings.Join(roP, " "), " "+strings.Join(roA, " ")
-	}
-	pats := strings.Join(sN, ", ")
-	k := kzName(iv)
-	def := fmt.Sprintf("/-- %s, line %d: `for %s := %s; %s >= 0; %s-- { … }`; the first argument bounds the number of iterations -/\ndef %s%s%s : Nat → %s → %s\n  | 0, %s => (%s)\n  | fuel_ + 1, %s =>\n    if %s ≥ 0 then\n%s      let %s := %s - 1\n      %s%s%s fuel_ %s\n    else\n      (%s)\n",
-		f.name, p.fset.Position(v.Pos()).Line, iv, exprText(init.Rhs[0]), iv, iv, name, kzParams, roPs, strings.Join(sT, " → "), strings.Join(sT, " × "),
-		pats, pats, pats, k, body, k, k, name, kzArgs, roAs, strings.Join(sN, " "), pats)
-	f.helpers = append(f.helpers, def)
-	out := ind + "let " + k + " : Int := " + es + "\n"
-	out += ind + "let (" + pats + ") := " + name + kzArgs + roAs + " (" + k + " + 1).toNat " + strings.Join(sN, " ") + "\n"
-	f.dropScope(f.declaredSince(mark))
-	return out + f.seq(rest, ind, v)
 }
 
 // ---------------------------------------------------------------------------------------------- functions and files
@@ -1188,7 +1125,7 @@ func (p *kzPkg) translate(name string) string {
 		}
 	}
 	fmt.Fprintf(&b, "/-- results of `%s` that share memory with a parameter: (result index, parameter) -/\ndef %s.aliases : List (Nat × String) := [%s]\n", name, name, strings.Join(an, ", "))
-	fmt.Fprintf(&b, "/-- %s/kzg.go line %d: `func %s` -/\ndef %s%s %s : %s :=\n%s\n", p.dir, p.fset.Position(fd.Pos()).Line, name, name, kzParams, strings.Join(params, " "), f.retTy(), body)
+	fmt.Fprintf(&b, "/-- %s/kzg.go line %d: `func %s` -/\ndef %s%s%s %s : %s :=\n%s\n", p.dir, p.fset.Position(fd.Pos()).Line, name, name, kzParams, f.extra, strings.Join(params, " "), f.retTy(), body)
 	return b.String()
 }
 
